@@ -32,11 +32,19 @@ def dataframe_to_symbols(table: 'pandas.DataFrame') -> List[Symbol]:  # noqa: F8
     fsic.tools.symbols_to_dataframe()
     """
 
+    def is_missing(field: Any) -> bool:
+        """`True` for `None` and NaN (how `pandas` stores a missing entry)."""
+        return field is None or (isinstance(field, float) and np.isnan(field))
+
     def convert_to_int_or_none(field: Any) -> Optional[int]:
-        """Convert NaNs to `None`; `int` otherwise."""
-        if np.isnan(field):
+        """Convert missing values (`None`, NaN) to `None`; `int` otherwise."""
+        if is_missing(field):
             return None
         return int(field)
+
+    def convert_to_str_or_none(field: Any) -> Optional[str]:
+        """Convert missing values (`None`, NaN) to `None`; unchanged otherwise."""
+        return None if is_missing(field) else field
 
     symbols = []
 
@@ -46,6 +54,9 @@ def dataframe_to_symbols(table: 'pandas.DataFrame') -> List[Symbol]:  # noqa: F8
         entry['type'] = Type(entry['type'])  # Convert to `enum`erated variable type
         entry['lags'] = convert_to_int_or_none(entry['lags'])
         entry['leads'] = convert_to_int_or_none(entry['leads'])
+        entry['name'] = convert_to_str_or_none(entry['name'])
+        entry['equation'] = convert_to_str_or_none(entry['equation'])
+        entry['code'] = convert_to_str_or_none(entry['code'])
 
         symbols.append(Symbol(**entry))
 
